@@ -15,7 +15,9 @@ def commentLine (c : Comment) : String :=
 
 def stmtLines (s : Stmt) : List String :=
   ("ST\t" ++ (if s.inverse then "I" else "D") ++ "\t" ++ s.prop ++ "\t" ++ "|".intercalate s.types ++ "\t"
-    ++ cardStr s.card ++ "\t" ++ toString s.n) :: s.comments.map commentLine
+    ++ cardStr s.card ++ "\t" ++ toString s.n
+    ++ (match s.parts with | some (b, i) => "\t" ++ toString b ++ "+" ++ toString i | none => "\t-"))
+    :: s.comments.map commentLine
 
 def shapeLines (sh : Shape) : List String :=
   ("SHAPE\t" ++ sh.name ++ "\t" ++ sh.classUri ++ "\t" ++ toString sh.nInstances) :: sh.stmts.flatMap stmtLines
